@@ -375,7 +375,16 @@ impl AdaptiveStore {
     /// Verification hook: canonical dump of entries and scheduling state.
     pub fn verif_snapshot(&self) -> String {
         format!(
-            "adaptive next={} min={} max={} cur={} expired={} ops={} maxops={} lastrem={} lasttot={} entries={}",
+            "{} entries={}",
+            self.verif_sched_state(),
+            verif_entries(&self.data)
+        )
+    }
+
+    /// Verification hook: the scheduling state only (no entries).
+    pub fn verif_sched_state(&self) -> String {
+        format!(
+            "adaptive next={} min={} max={} cur={} expired={} ops={} maxops={} lastrem={} lasttot={}",
             verif_ns(self.next_cleanup),
             self.min_cleanup_interval.as_nanos(),
             self.max_cleanup_interval.as_nanos(),
@@ -384,8 +393,7 @@ impl AdaptiveStore {
             self.operations_since_cleanup,
             self.max_operations_before_cleanup,
             self.last_cleanup_removed,
-            self.last_cleanup_total,
-            verif_entries(&self.data)
+            self.last_cleanup_total
         )
     }
 
